@@ -15,8 +15,8 @@ vars == <<l, fails, hist>>
 
 AttOfJ(j)   == [ep |-> j.ep, kind |-> j.kind, voters |-> j.voters, obs |-> j.obs]
 ClaimOfJ(j) == IF j.kind = "price" THEN [by |-> j.by, kind |-> "price", ep |-> j.ep, pr |-> j.pr]
-               ELSE [by |-> j.by, kind |-> "holders", ep |-> j.ep, list |-> j.list]
-OrOf(j) == [ep |-> j.ep, pr |-> j.pr, hold |-> j.hold,
+               ELSE [by |-> j.by, kind |-> "holders", ep |-> j.ep, list |-> NormList(j.list)]
+OrOf(j) == [ep |-> j.ep, pr |-> j.pr, hold |-> NormList(j.hold),
             att |-> {AttOfJ(j.att[i]) : i \in DOMAIN j.att}, claims |-> {ClaimOfJ(j.claims[i]) : i \in DOMAIN j.claims}]
 StOf(p) == [or |-> OrOf(p["or"]), stk |-> p.stk, tot |-> p.tot, h |-> p.h]
 Dead(j) == "dead" \in DOMAIN j
@@ -46,7 +46,18 @@ Checks(pre, a, res, post, denoms) ==
     \cup (IF a.k # "Blocks" THEN C18Checks(pre, a, post) ELSE {})
     \cup (IF a.k \in {"Begin", "End", "Blocks"} /\ res.out # "ok" THEN {<<"C05:BlockOpsTotal", res.out>>} ELSE {})
 
-InitHist == [pre |-> <<>>, denoms |-> {}, n |-> 0, id |-> "", viol |-> {}, cov |-> <<>>]
+\* a pass of the REAL oracle service (line "OrcRelay": res.outs = the claims it committed, already consumed as ordinary
+\* steps; `call` = the state when it was called): it claims exactly what the service specification says
+ClaimCore(a) == IF a.k = "Price" THEN [k |-> "Price", by |-> a.by, ep |-> a.ep, pr4 |-> a.pr4]
+                ELSE IF a.k = "Holders" THEN [k |-> "Holders", by |-> a.by, ep |-> a.ep, list |-> NormList(a.list)] ELSE [k |-> a.k]
+ServiceChecks(call, a, res) ==
+    IF a.k # "OrcRelay" THEN {}
+    ELSE IF res.out # "ok" THEN {<<"C18:ServiceFails", res.out>>}
+    ELSE IF [i \in DOMAIN res.outs |-> ClaimCore(res.outs[i])]
+            # LET want == ServiceClaims(call["or"], a.by, [pr4 |-> a.pr4, list |-> a.list], res.period) IN [i \in DOMAIN want |-> ClaimCore(want[i])]
+         THEN {<<"C18:ServiceClaims", a.by>>} ELSE {}
+
+InitHist == [pre |-> <<>>, call |-> <<>>, denoms |-> {}, n |-> 0, id |-> "", viol |-> {}, cov |-> <<>>]
 Bump(cov, key) == Put(cov, key, Get(cov, key, 0) + 1)
 Init == l = 0 /\ fails = {} /\ hist = InitHist
 
@@ -62,8 +73,8 @@ ConsumeStep ==
             /\ hist' = [hist EXCEPT !.viol = @ \cup {<<hist.id, line.i, f[1], f[2]>> : f \in fails'}, !.cov = Bump(@, line.act.k \o "/" \o line.res.out)]
        ELSE LET post == StOf(line.post)
                 oracleAct == line.act.k \in {"Price", "Holders", "End", "Blocks", "Begin", "Stake"}
-            IN /\ fails' = IF oracleAct THEN Checks(hist.pre, line.act, line.res, post, hist.denoms) ELSE {}
-               /\ hist' = [hist EXCEPT !.pre = post, !.viol = @ \cup {<<hist.id, line.i, f[1], f[2]>> : f \in fails'},
+            IN /\ fails' = (IF oracleAct THEN Checks(hist.pre, line.act, line.res, post, hist.denoms) ELSE {}) \cup ServiceChecks(hist.call, line.act, line.res)
+               /\ hist' = [hist EXCEPT !.pre = post, !.call = IF line.act.k = "OrcCall" THEN post ELSE @, !.viol = @ \cup {<<hist.id, line.i, f[1], f[2]>> : f \in fails'},
                                        !.cov = LET c1 == Bump(@, line.act.k \o "/" \o line.res.out)
                                                    c2 == IF hist.pre["or"].pr # post["or"].pr THEN Bump(c1, "PricesChanged") ELSE c1
                                                    c3 == IF hist.pre["or"].hold # post["or"].hold THEN Bump(c2, "HoldersChanged") ELSE c2
